@@ -686,3 +686,203 @@ def run(ctx):  # noqa: F811
     r32_3(ctx, ctx.model)
     r32_4(ctx, ctx.model)
     r32_5(ctx, ctx.model)
+
+
+# ---------------------------------------------------------------------------------------------------------------- R32.6 - R32.8
+def _ilin(e, env=None, depth=4):
+    """integer linear normal form {name: coeff, '': const} of an index expression; local single assignments unfolded; None if not linear"""
+    if isinstance(e, ast.Constant) and isinstance(e.value, int) and not isinstance(e.value, bool):
+        return {"": e.value} if e.value else {}
+    if isinstance(e, ast.Name):
+        return {e.id: 1}
+    if isinstance(e, ast.UnaryOp) and isinstance(e.op, ast.USub):
+        a = _ilin(e.operand, env, depth)
+        return None if a is None else {k: -v for k, v in a.items()}
+    if isinstance(e, ast.BinOp) and isinstance(e.op, (ast.Add, ast.Sub)):
+        a, b = _ilin(e.left, env, depth), _ilin(e.right, env, depth)
+        if a is None or b is None:
+            return None
+        sg = 1 if isinstance(e.op, ast.Add) else -1
+        out = dict(a)
+        for k, v in b.items():
+            out[k] = out.get(k, 0) + sg * v
+        return {k: v for k, v in out.items() if v}
+    return None
+
+
+def r32_6(ctx, m):
+    R = "R32.6"
+    ctx.rule(R, "NUTS doubling (generate_nuts_tree): a new sub-tree that is turning (or diverging) is never merged into the trajectory - "
+                "the predicate of the `cond` that keeps the old tree contains `<new>.turning` and `<new>.diverging` as unconditional "
+                "disjuncts (a depth- or flag-qualified disjunct lets a U-turning sub-tree into the sample set and breaks reversibility)", floor=1)
+    fi = m.func("nifty.re.hmc", "generate_nuts_tree")
+    ctx.saw_func(fi)
+    step = fi.nested.get("cond_tree_doubling") or next((f for f in fi.nested.values()), None)
+    key = f"{fi.key}::turning/diverging sub-tree is discarded unconditionally"
+    conds = [c for c in ast.walk(fi.node) if isinstance(c, ast.Call) and call_name(c) == "cond"
+             and any("merge_trees" in src(k.value) for k in c.keywords if k.arg in ("true_fun", "false_fun")) or
+             (isinstance(c, ast.Call) and call_name(c) == "cond" and len(c.args) >= 3 and any("merge_trees" in src(a) for a in c.args[1:3]))]
+    if len(conds) != 1:
+        ctx.und(R, key, f"{len(conds)} cond(...) calls around merge_trees", fi)
+        return
+    c = conds[0]
+    kw = {k.arg: k.value for k in c.keywords}
+    pred = kw.get("pred", c.args[0] if c.args else None)
+    tf = kw.get("true_fun", c.args[1] if len(c.args) > 1 else None)
+    ff = kw.get("false_fun", c.args[2] if len(c.args) > 2 else None)
+    if pred is None or tf is None or ff is None:
+        ctx.und(R, key, "cond arguments not recognised", fi, c)
+        return
+    merge_on_false = "merge_trees" in src(ff) and "merge_trees" not in src(tf)
+    merge_on_true = "merge_trees" in src(tf) and "merge_trees" not in src(ff)
+
+    def disj(e):
+        if isinstance(e, ast.BinOp) and isinstance(e.op, ast.BitOr):
+            return disj(e.left) + disj(e.right)
+        if isinstance(e, ast.BoolOp) and isinstance(e.op, ast.Or):
+            return [d for v in e.values for d in disj(v)]
+        return [e]
+    if merge_on_false:
+        ds = [src(d) for d in disj(pred)]
+        flags = {d.rsplit(".", 1)[-1] for d in ds if isinstance(ast.parse(d, mode="eval").body, ast.Attribute)}
+        qualified = [d for d in ds if ("turning" in d or "diverging" in d) and not isinstance(ast.parse(d, mode="eval").body, ast.Attribute)]
+        ok_ = {"turning", "diverging"} <= flags
+        ctx.check(R, key, True if ok_ else (False if qualified else None),
+                  f"keep-old predicate `{src(pred)}`" + (f": {qualified} only holds under an extra condition" if qualified and not ok_ else ""), fi, c)
+    elif merge_on_true:
+        ctx.und(R, key, f"merge under `{src(pred)}` (polarity swapped form not modelled)", fi, c)
+    else:
+        ctx.und(R, key, "merge branch not identified", fi, c)
+
+
+def r32_7(ctx, m):
+    R = "R32.7"
+    ctx.rule(R, "NUTS sub-tree U-turn checks (iterative_build_tree): the loop over the stored left endpoints visits exactly the index "
+                "range [lower, upper) it declares - the index handed to tree_index_get is the loop variable k, or its reflection "
+                "lower + (upper - 1) - k (linear normal form); any other affine index checks endpoints of sub-trees that do not end at "
+                "the current point", floor=1)
+    fi = m.func("nifty.re.hmc", "iterative_build_tree")
+    ctx.saw_func(fi)
+    n = 0
+    for fn in ast.walk(fi.node):
+        if not isinstance(fn, ast.FunctionDef):
+            continue
+        env = {}
+        for st in fn.body:
+            if isinstance(st, ast.Assign) and len(st.targets) == 1 and isinstance(st.targets[0], ast.Name):
+                env[st.targets[0].id] = st.value
+        for c in walk_no_nested(fn):
+            if not (isinstance(c, ast.Call) and call_name(c) == "fori_loop"):
+                continue
+            kw = {k.arg: k.value for k in c.keywords}
+            lo = kw.get("lower", c.args[0] if c.args else None)
+            up = kw.get("upper", c.args[1] if len(c.args) > 1 else None)
+            body = kw.get("body_fun", c.args[2] if len(c.args) > 2 else None)
+            if lo is None or up is None or not isinstance(body, ast.Lambda) or not body.args.args:
+                continue
+            kname = body.args.args[0].arg
+            gets = [g for g in ast.walk(body.body) if isinstance(g, ast.Call) and call_name(g) == "tree_index_get" and len(g.args) == 2]
+            for g in gets:
+                n += 1
+                key = f"{fi.key}::{fn.name}: index `{src(g.args[1])}` stays in [{src(lo)}, {src(up)})"
+                idx, L, U = _ilin(g.args[1]), _ilin(lo), _ilin(up)
+                if idx is None or L is None or U is None:
+                    ctx.und(R, key, "index or bounds not affine", fi, g)
+                    continue
+                if idx == {kname: 1}:
+                    ctx.ok(R, key, "identity", fi, g)
+                    continue
+                if idx.get(kname) == -1:
+                    rest = {k: v for k, v in idx.items() if k != kname}
+                    want = dict(L)
+                    for k, v in U.items():
+                        want[k] = want.get(k, 0) + v
+                    want[""] = want.get("", 0) - 1
+                    want = {k: v for k, v in want.items() if v}
+                    ctx.check(R, key, rest == want, f"reflection constant is {rest}, the range needs lower + upper - 1 = {want}", fi, g)
+                    continue
+                ctx.bad(R, key, f"index {idx} is neither k nor its reflection", fi, g)
+    if not n:
+        ctx.und(R, f"{fi.key}::U-turn loop", "no fori_loop over tree_index_get found", fi)
+
+
+def r32_8(ctx, m):
+    R = "R32.8"
+    ctx.rule(R, "merge_trees: a NaN log-weight difference (a sub-tree that left the support of the target) never yields a positive "
+                "transition probability - abstract evaluation of the probability expression with the difference = NaN: arithmetic, exp, "
+                "expit and minimum/maximum propagate NaN (bernoulli(NaN) keeps the old proposal), comparisons with NaN are False, "
+                "fmin/fmax/nan_to_num drop it; a result that is a non-NaN constant is a certain jump to a point of zero mass", floor=1)
+    fi = m.func("nifty.re.hmc", "merge_trees")
+    ctx.saw_func(fi)
+    NAN, UNK = "nan", "unknown"
+
+    def ev(e, env):
+        if isinstance(e, ast.Constant) and isinstance(e.value, (int, float)):
+            return float(e.value)
+        if isinstance(e, ast.Name):
+            return env.get(e.id, UNK)
+        if isinstance(e, ast.Attribute) and e.attr == "logweight":
+            return NAN if src(e.value).startswith("new") else UNK
+        if isinstance(e, ast.BinOp):
+            a, b = ev(e.left, env), ev(e.right, env)
+            return NAN if NAN in (a, b) else UNK
+        if isinstance(e, ast.UnaryOp):
+            a = ev(e.operand, env)
+            return a if a in (NAN, UNK) else UNK
+        if isinstance(e, ast.Compare):
+            vals = [ev(e.left, env)] + [ev(c, env) for c in e.comparators]
+            if NAN in vals:
+                return True if isinstance(e.ops[0], ast.NotEq) else False
+            return UNK
+        if isinstance(e, ast.Call):
+            f = call_name(e)
+            args = [ev(a, env) for a in e.args]
+            if f in ("where", "select") and len(args) == 3:
+                c = args[0]
+                if c is True:
+                    return args[1]
+                if c is False:
+                    return args[2]
+                return NAN if NAN in args[1:] and args[1] == args[2] else UNK
+            if f in ("fmin", "fmax", "nanmin", "nanmax"):
+                others = [a for a in args if a != NAN]
+                return others[0] if others and NAN in args else (NAN if NAN in args else UNK)
+            if f == "nan_to_num":
+                return 0.0 if args and args[0] == NAN else UNK
+            if f in ("isnan",):
+                return True if args and args[0] == NAN else UNK
+            return NAN if NAN in args else UNK
+        return UNK
+    from ..util import cfg_of
+    n = 0
+    for st in ast.walk(fi.node):
+        if isinstance(st, ast.Assign) and len(st.targets) == 1 and src(st.targets[0]) == "transition_probability":
+            n += 1
+            # environment: straight-line assignments that precede it in the same block
+            env = {}
+            for blk in ast.walk(fi.node):
+                body = getattr(blk, "body", None)
+                if isinstance(body, list) and st in body:
+                    for s2 in body[:body.index(st)]:
+                        if isinstance(s2, ast.Assign) and len(s2.targets) == 1 and isinstance(s2.targets[0], ast.Name):
+                            env[s2.targets[0].id] = ev(s2.value, env)
+            v = ev(st.value, env)
+            key = f"{fi.key}::`{short(st.value, 50)}` is NaN (or undecided) for a NaN log-weight difference"
+            if v == NAN:
+                ctx.ok(R, key, "NaN propagates: the old proposal is kept", fi, st)
+            elif isinstance(v, float):
+                ctx.check(R, key, v <= 0.0, f"evaluates to {v} for a NaN difference: the new (undefined-energy) sub-tree is chosen with that probability", fi, st)
+            else:
+                ctx.und(R, key, "abstract value unknown", fi, st)
+    if not n:
+        ctx.und(R, f"{fi.key}::transition probability", "assignment not found", fi)
+
+
+_run_c32c = run
+
+
+def run(ctx):  # noqa: F811
+    _run_c32c(ctx)
+    r32_6(ctx, ctx.model)
+    r32_7(ctx, ctx.model)
+    r32_8(ctx, ctx.model)
